@@ -345,10 +345,12 @@ func (p *wat2wasmWorker) buildNameSection() error {
 				}
 			}
 
-			funcNames = append(funcNames, &wasm.NameAssoc{
-				Index: wasm.Index(importFuncCount),
-				Name:  x.FuncName,
-			})
+			if x.FuncName != "" {
+				funcNames = append(funcNames, &wasm.NameAssoc{
+					Index: wasm.Index(importFuncCount),
+					Name:  x.FuncName,
+				})
+			}
 			localNames = append(localNames, &wasm.NameMapAssoc{
 				Index:   wasm.Index(importFuncCount),
 				NameMap: localNameMap,
@@ -367,16 +369,20 @@ func (p *wat2wasmWorker) buildNameSection() error {
 			}
 		}
 		for j, local := range fn.Locals {
-			localNameMap = append(localNameMap, &wasm.NameAssoc{
-				Index: wasm.Index(len(fn.Type.Params) + j),
-				Name:  local.Name,
-			})
+			if local.Name != "" {
+				localNameMap = append(localNameMap, &wasm.NameAssoc{
+					Index: wasm.Index(len(fn.Type.Params) + j),
+					Name:  local.Name,
+				})
+			}
 		}
 
-		funcNames = append(funcNames, &wasm.NameAssoc{
-			Index: wasm.Index(importFuncCount + i),
-			Name:  fn.Name,
-		})
+		if fn.Name != "" {
+			funcNames = append(funcNames, &wasm.NameAssoc{
+				Index: wasm.Index(importFuncCount + i),
+				Name:  fn.Name,
+			})
+		}
 
 		localNames = append(localNames, &wasm.NameMapAssoc{
 			Index:   wasm.Index(importFuncCount + i),
